@@ -6,3 +6,5 @@ Definition oracle_C20 (q : bytes) (len : Z) (panicked : bool) : bool :=
   negb panicked && (0 <=? len) && (len <=? 65535) &&
   (if has_qmark q then true else len =? Z.min 65535 (max_index_fast q)) &&
   (if has_dollar_index_fast q then true else len =? Z.min 65535 (count_qmark q)).
+
+Definition oracle_C20_alloc (q : bytes) (allocated : Z) : bool := allocated <=? alloc_budget q.
